@@ -147,7 +147,7 @@ def run_lib(case):
     if "seqs" in case:
         seqs = case["seqs"]
     else:
-        seqs = auto_seqs(class_paths(t0), case["auto"])
+        seqs = [list(x) for x in case.get("first_seqs", [])] + auto_seqs(class_paths(t0), case["auto"])
     want = {}
     got = []
     writes = []
@@ -171,30 +171,43 @@ def run_lib(case):
 
 
 def run_cli(case):
+    """case: text (single file lib.mo) or files {relative path: text}; models; target.
+    Every invocation gets its own copy of the files (generated code / cache files of one run must
+    not be visible to another)."""
     import logging
+    import shutil
     import compiler                                  # $REPO/tools/compiler.py
     logging.disable(logging.CRITICAL)
-    d = tempfile.mkdtemp(prefix="c05cli_")
-    f = os.path.join(d, "lib.mo")
-    open(f, "w").write(case["text"])
-    out = {}
+    files = case.get("files") or {"lib.mo": case["text"]}
     cwd = os.getcwd()
-    os.chdir(d)
-    try:
-        args = [f]
-        for m in case["models"]:
-            args += ["-m", m]
-        if case.get("target"):
-            args += ["-t", case["target"], "-o", d]
-        out["joint"] = compiler.main(list(args))
-        out["separate"] = []
-        for m in case["models"]:
-            a = [f, "-m", m]
+
+    def one(models):
+        d = tempfile.mkdtemp(prefix="c05cli_")
+        try:
+            for rel, text in files.items():
+                f = os.path.join(d, rel)
+                os.makedirs(os.path.dirname(f), exist_ok=True)
+                open(f, "w").write(text)
+            os.chdir(d)
+            args = []
             if case.get("target"):
-                a += ["-t", case["target"], "-o", d]
-            out["separate"].append(compiler.main(a))
+                args += ["-t", case["target"], "-o", d]
+            for m in models:
+                args += ["-m", m]
+            args.append(os.path.join(d, "lib.mo") if "files" not in case else d)
+            try:
+                return compiler.main(args)
+            except SystemExit as e:
+                return "exit:%s" % e.code
+        finally:
+            os.chdir(cwd)
+            shutil.rmtree(d, ignore_errors=True)
+
+    out = {}
+    try:
+        out["joint"] = one(case["models"])
+        out["separate"] = [one([m]) for m in case["models"]]
     finally:
-        os.chdir(cwd)
         logging.disable(logging.NOTSET)
     return out
 
